@@ -411,16 +411,19 @@ CORE_NAMES = {'set-a-scalar-attr', 'set-v-len1-attr', 'set-atype-full-view', 'se
 # stay in the alphabet for the first two positions (depth <= 2 is complete over OPS).  What is left for the last
 # position keeps every kind of operation, every key (dtype / trailing shape / new-vs-existing), every value form
 # (scalar, length-1, full), every route (attr, view, prop, atoms_prop) and every kind of index (int, -1, slice,
-# list, mask); what is dropped is a second instance of a (kind, form, route, index-kind) combination already there.
+# list, mask); what is dropped is a second instance of a (kind, form, route, index-kind) combination already there, a
+# route that only forwards to a kept one, and the lazy reads / pbc= that check() performs or that touch no per-atom data.
 VARIANTS_NOT_LAST = {
     'set-a-len1-view', 'set-a-full-attr', 'set-v-len1-prop', 'set-k-full-attr', 'set-atype-len1-prop',
     'set-pos-len1-view', 'set-n-len1-view',
     'iset-a-i0-rows', 'iset-a-im2-rows', 'iset-v-i0-rows', 'iset-v-li-rows', 'iset-v-bm-rows', 'iset-k-im1-rows',
     'iset-pos-im1-rows-scaled',
+    'iset-a-bm-scalar',                   # unscaled atoms_prop(..., value=) only forwards to Atoms.prop
     'patype-list-a', 'patype-one-a',
-    'atoms_ix-get-i0', 'atoms_ix-get-im1', 'atoms_ix-get-bm',
-    'setitem-i0',
-    'masses-float', 'pbc',
+    'extend-int', 'extend-B2',            # atoms_extend-int / atoms_extend-B2 run the same Atoms.extend inside
+    'getitem-bmT', 'atoms_ix-get-i0', 'atoms_ix-get-im1', 'atoms_ix-get-bm',
+    'setitem-i0', 'setitem-li',
+    'symbols-str', 'masses-float', 'pbc',
     'read-symbols', 'read-masses',       # as a last operation these are what check() itself does first in every state
 }
 assert VARIANTS_NOT_LAST <= {op['name'] for op in OPS}
@@ -430,6 +433,7 @@ TRIM_LAST = 0        # history length from which ops() trims (0 = never); set in
 # read in every state of depth <= 2 (and everywhere in the thorough tier and in replays).
 IDX_LEAN = ['im1', 'sl', 'li']
 LEAN_FROM = 0        # history length from which check() uses IDX_LEAN (0 = never)
+MAX_FAILS_PER_STATE = 12   # the first failures of a state say what is wrong; the rest are consequences
 
 
 def trail_of(m, key):
@@ -679,6 +683,7 @@ def build(hist):
     st.retired = []
     st.dead = None
     st.depth = len(hist)
+    st.hist = list(hist)
     try:
         st.sys = System(atoms=atoms_from_model(st.model), box=new_box(), symbols=['Al'])
     except Exception as e:          # the initial objects cannot even be made
@@ -702,6 +707,10 @@ def canon(st):
 
 def ops(st):
     if st.dead:
+        return []
+    if check(st.hist, st):
+        # a state that violates the property was reported when it was reached; histories through it would only
+        # repeat the same violation under other keys (and, for a broken accessor, by the million)
         return []
     lst = [op for op in ACTIVE_OPS if enabled(op, st.model)]
     if TRIM_LAST and st.depth >= TRIM_LAST:
@@ -800,7 +809,7 @@ def check(hist, st):
     """invariant + model comparison + accessor battery of one state; an exception escaping from a read, a refused
     write or a copy is a failure of that state (it must not abort the search)"""
     try:
-        return _check(hist, st)
+        return _check(hist, st)[:MAX_FAILS_PER_STATE]
     except Exception as e:
         import traceback
         return [Fail(key='exception:%s@%s' % (type(e).__name__, hist[-1]['name'] if hist else 'initial'),
